@@ -197,6 +197,42 @@ def first_touch_oracle(chk):
             return
 
 
+def falsy_hosts(chk):
+    """resolution does not depend on the truth value of the object: hosts with __len__ 0 or __bool__ False (an empty sequence is one) resolve like any other"""
+    from typing import Any
+    from pyroll.core.hooks import Hook, HookHost
+    from pyroll.core import PassSequence
+
+    class Plain(HookHost):
+        v = Hook[Any]()
+
+    class Empty(Plain):
+        def __len__(self):
+            return 0
+
+    class No(Plain):
+        def __bool__(self):
+            return False
+    Plain.v(lambda self: 1)
+    Empty.v(lambda self: 2)
+    No.v(lambda self, cycle: None if cycle else self.v + 10)
+    got = []
+    for cls, want in ((Plain, 1), (Empty, 2), (No, 11)):
+        chk.cov['evaluations'] += 1
+        got.append((cls.__name__, cls().v, want))
+    f = PassSequence.duration(lambda self: 7.5, tryfirst=True)
+    try:
+        chk.cov['evaluations'] += 1
+        got.append(('PassSequence([])', PassSequence([]).duration, 7.5))
+    finally:
+        PassSequence.duration.remove_function(f)
+    bad = [(n, g, w) for n, g, w in got if not (type(g) is type(w) and g == w)]
+    if bad:
+        n, g, w = bad[0]
+        chk.fail('value', f"read on a fresh instance of {n} (an object whose truth value is False; one implementation on its class, one on the base) gives {g!r}, "
+                 f"the chain evaluates to {w!r}", {'case': 'falsy host', 'class': n})
+
+
 def run(chk):
     chk.coq.add_prop_file('C01.v')
     chk.coq.compile('C01.v', is_props=True, timeout=900)
@@ -231,6 +267,8 @@ def run(chk):
     if shrunk and not chk.failures:
         X.report_deviation(chk, shrunk[0][0], shrunk[0][1], 'dev')
     first_touch_oracle(chk)
+    if not [f for f in chk.failures if f.key != 'cross-instance-first-touch']:
+        falsy_hosts(chk)
     chk.sample(ser(cases[0]))
     chk.cov['rule'] = ("seeded random class hierarchies (chains, diamonds, mixins, trees; hooks re-declared in subclasses) x histories "
                        "of register (plain/wrapper, three tiers, any owner) / remove / remove-via-other-class / class touches / reads "
